@@ -25,7 +25,8 @@ def _alarm(*a):
 def gen_election(rng, family=None, maxc=7, maxb=9):
     """e = dict(n, s, wd, und, tie, lines=[(m, ranking)], eq=[(m, [[cids]..])], names)"""
     family = family or rng.choice(['small', 'small', 'tie', 'tie', 'nearquota', 'chain', 'starved', 'withdrawn', 'bigmult', 'mid', 'cross', 'coalition'])
-    if family == 'cross': return gen_scot_cross(rng)
+    if family == 'cross': return gen_scot_cross(rng) if rng.random() < 0.6 else gen_scot_tie3(rng)
+    if family == 'tinyvote': return gen_tinyvote(rng, rng.choice([1, 2]))
     if family == 'coalition': return gen_coalition(rng) if rng.random() < 0.6 else gen_multisurplus(rng)
     if family == 'multisurplus': return gen_multisurplus(rng)
     if family == 'exactquota4': return gen_exact_quota(rng, 4)
@@ -164,6 +165,25 @@ def gen_coalition(rng):
             tail = [x for x in out if x != c]; rng.shuffle(tail)
             lines.append((share, [c] + tail[:rng.randint(0, len(tail))]))
     return _finish(rng, n, seats, lines)
+
+def gen_tinyvote(rng, prec):
+    """guarded arithmetic at low precision: a candidate without first preferences receives a surplus at so small a
+    transfer value that its tally is non-zero yet equal to zero under the fuzzy comparison"""
+    Q = rng.randint(3 * 10 ** prec, 6 * 10 ** prec)
+    k = rng.randint(1, 2)
+    lines = [(Q, [1, 2]), (k, [1, 4]), (Q - rng.randint(1, 3), [2]), (Q, [3])]
+    if rng.random() < 0.5: lines.append((rng.randint(1, 3), [5, 4]))
+    n = 5 if len(lines) == 5 else 4
+    return _finish(rng, n, 2, lines)
+
+def gen_scot_tie3(rng):
+    """three candidates tie for exclusion at stage 2+, two of them also tied at the earlier stages (lot after look-back)"""
+    t = rng.randint(3, 8)
+    lines = [(t, [1]), (t, [2]), (t + 1, [3]), (1, [4, 1]), (1, [4, 2])]
+    if rng.random() < 0.5: lines += [(1, [5, 4, 1])]          # an earlier exclusion first: the tie arises at stage 3
+    n = 5 if len(lines) == 6 else 4
+    lines.append((rng.randint(t + 3, t + 6), [n + 1, rng.choice([1, 2, 3])]))
+    return _finish(rng, n + 1, 1, lines)
 
 def gen_multisurplus(rng):
     """several candidates elected at once with small pending surpluses pointing at weak candidates whose
